@@ -26,28 +26,28 @@ import (
 type c03Kind int
 
 const (
-	kOK           c03Kind = iota // 200, Content-Length = len, body = content
-	kOKJunk                      // 200, Content-Length = len, body = content followed by junk the framing excludes
-	kOKChunked                   // 200, chunked, content, proper terminator
-	kOKClose                     // 200, no length, body = content, then FIN
-	kFlip                        // 200, Content-Length = len, one bit flipped
-	kShortHonest                 // 200, Content-Length = len, body cut short, FIN
-	kShortMatch                  // 200, Content-Length = k < len, body = content[:k]
-	kLongMatch                   // 200, Content-Length = len+x, body = content+junk
-	kCLLie                       // 200, Content-Length = len+-d, body = content in full
-	kChunkedShort                // 200, chunked, content[:k], terminated
-	kChunkedLong                 // 200, chunked, content+junk, terminated
-	kChunkedFlip                 // 200, chunked, bit flipped, terminated
-	kChunkedTrunc                // 200, chunked, content, NO terminator, FIN
-	kCloseShort                  // 200, no length, content[:k], FIN
-	kCloseLong                   // 200, no length, content+junk, FIN
-	kCloseFlip                   // 200, no length, bit flipped, FIN
-	k404                         // 404
-	kPermStatus                  // other non-retryable status (400, 401, 403, 410, 422)
-	kRetryStatus                 // 408, 429, 500, 502, 503, 504
-	kResetBefore                 // RST without any response byte
-	kCloseBefore                 // FIN without any response byte
-	kResetAfterHdr               // 200 + headers (+ part of the body), then RST
+	kOK            c03Kind = iota // 200, Content-Length = len, body = content
+	kOKJunk                       // 200, Content-Length = len, body = content followed by junk the framing excludes
+	kOKChunked                    // 200, chunked, content, proper terminator
+	kOKClose                      // 200, no length, body = content, then FIN
+	kFlip                         // 200, Content-Length = len, one bit flipped
+	kShortHonest                  // 200, Content-Length = len, body cut short, FIN
+	kShortMatch                   // 200, Content-Length = k < len, body = content[:k]
+	kLongMatch                    // 200, Content-Length = len+x, body = content+junk
+	kCLLie                        // 200, Content-Length = len+-d, body = content in full
+	kChunkedShort                 // 200, chunked, content[:k], terminated
+	kChunkedLong                  // 200, chunked, content+junk, terminated
+	kChunkedFlip                  // 200, chunked, bit flipped, terminated
+	kChunkedTrunc                 // 200, chunked, content, NO terminator, FIN
+	kCloseShort                   // 200, no length, content[:k], FIN
+	kCloseLong                    // 200, no length, content+junk, FIN
+	kCloseFlip                    // 200, no length, bit flipped, FIN
+	k404                          // 404
+	kPermStatus                   // other non-retryable status (400, 401, 403, 410, 422)
+	kRetryStatus                  // 408, 429, 500, 502, 503, 504
+	kResetBefore                  // RST without any response byte
+	kCloseBefore                  // FIN without any response byte
+	kResetAfterHdr                // 200 + headers (+ part of the body), then RST
 	kNumKinds
 )
 
